@@ -330,6 +330,7 @@ func c10Exec(x *Ctx) {
 	cs.In.Seg = int(c.cfg("seg"))
 	peer := NewSrvPeer(x, cs, uint32(c.cfg("smsize")), c.cfg("sdotu") != 0)
 	peer.NoDupCheck = true
+	peer.NoTagRules = true
 	st := &c10State{x: x, keyOcc: map[string]int{}}
 	fired := false
 	nData := 0
